@@ -21,12 +21,13 @@ def run(tier):
     iid = 0
     small = [(100, True), (128, True), (131, True), (1031, False), (8967 + 5, False)]
     for n, allrot in small:
-        for mode in ["uni", "bias", "periodic"]:
+        # drifting / degenerate inputs matter: a walk that peaks on its very last step, a final run longer than the cut-off, ...
+        for mode in ["uni", "bias", "periodic", "heavy", "heavy", "step", "const1", "runsbias", "onehot"]:
             iid += 1
             inputs.append({"id": iid, "mode": mode, "n": n, "seed": rng.randrange(1 << 40), "allrot": allrot})
     big = [6272 + 9, 20000, 100003] + ([750007, 1000000, 1000003] if thorough else [1000003])
     for n in big:
-        for mode in (["uni", "runsbias", "heavy"] if thorough else ["uni", "runsbias"][: 1 + (n < 1000000)]):
+        for mode in (["uni", "runsbias", "heavy", "step"] if thorough else ["uni", "heavy"][: 1 + (n < 1000000)]):
             iid += 1
             inputs.append({"id": iid, "mode": mode, "n": n, "seed": rng.randrange(1 << 40), "allrot": False})
     inputs.sort(key=lambda i: -i["n"])
